@@ -222,13 +222,18 @@ fn lower_sub_ast_to_instrs(
         LowerStmt::Instr(instr) => Some({
             // this is the second time we're using encode_args (first time was to get labels), so suppress warnings
             let null_emitter = ctx.emitter.with_writer(crate::diagnostic::dev_null());
-            encode_args(&mut encoding_state, hooks, &instr, &ctx.defs, &null_emitter)
-                .expect("we encoded this successfully before!")
+            encode_args(&mut encoding_state, hooks, &instr, &ctx.defs, &null_emitter).or_else(|e| {
+                // The first time around, labels had dummy values.  The real offset or time of a label
+                // might not fit in the parameter it is written to; encode again to show that error.
+                e.ignore();
+                encode_args(&mut ArgEncodingState::new(), hooks, &instr, &ctx.defs, &ctx.emitter)
+                    .and_then(|_| Err(ctx.emitter.emit(error!("failed to encode arguments of opcode {}", instr.opcode))))
+            })
         }),
         LowerStmt::Label { .. } => None,
         LowerStmt::RegAlloc { .. } => None,
         LowerStmt::RegFree { .. } => None,
-    }).collect();
+    }).collect::<Result<_, _>>()?;
     let debug_info = do_debug_info.then(|| debug_info::ScriptLoweringInfo {
         register_info: debug_info_registers.unwrap(),
         offset_info: debug_info_labels.unwrap(),
